@@ -22,7 +22,7 @@
    failing) hold under the inverse-pair contracts only: the glue through pre_loop / post_loop / recip_loop is
    proofs/C04Multi.v. *)
 From Coq Require Import Lia.
-From Model Require Import JweBase JweCrypto JweMsg JweCases C02Examples.
+From Model Require Import JweBase JweCrypto JweMsg JweCases C02Examples C04Examples.
 From Gen Require Import Tables.
 From Proofs Require Import C02Proofs C04Proofs C04Multi C04Wire C04JsonWire.
 Open Scope N_scope.
@@ -483,6 +483,39 @@ Theorem aad_enc_eq_dec : forall O g o d x,
   perform_encrypt O g o d = Ok x -> dec_aad O (obj_of o x) = Ok (x_aadseg x).
 Proof. exact C04Proofs.aad_enc_eq_dec. Qed.
 
+(* the three sites that look at the aad - perform_encrypt's AAD, the "aad" member of represent_*_json and
+   _perform_decrypt's AAD - use ONE emptiness test: an empty aad (Some []) is an absent aad (None) at each of them.
+   aad_enc_eq_dec above is for ALL aad values, Some [] included. *)
+Theorem c04_aad_empty_is_absent : forall s p,
+  aad_of s p (Some []) = aad_of s p None /\ aad_of s p None = p.
+Proof. exact aad_empty_is_absent. Qed.
+
+Theorem c04_represent_aad_member : forall O o x data,
+  e_ser o <> Compact -> represent_json O o x = Ok data ->
+  py_in (PStr (s_ "aad")) data = Ok (match e_aad o with Some (_ :: _) => true | _ => false end).
+Proof. exact represent_aad_member. Qed.
+
+(* aad = Some [] on a recorded joserfc run (flattened, A128KW + A128GCM, aad=b""): the model emits the same dict
+   (no "aad" member), the AAD of both sides is the bare encoded protected header, and the token decrypts *)
+Example c04_empty_aad_example :
+  jwe_check ex_empty_aad_enc = true /\ jwe_check ex_empty_aad_dec = true /\
+  match ex_empty_aad_enc with
+  | CEncJson t g o d _ =>
+      match e_aad o, perform_encrypt (table_oracles t) g o d with
+      | Some [], Ok x =>
+          beqb (x_aadseg x) (x_b64prot x) &&
+          match dec_aad (table_oracles t) (obj_of o x), represent_json (table_oracles t) o x with
+          | Ok a, Ok data => beqb a (x_aadseg x) &&
+                             match py_in (PStr (s_ "aad")) data with Ok false => true | _ => false end
+          | _, _ => false
+          end
+      | _, _ => false
+      end
+  | _ => false
+  end = true /\
+  (match jwe_run ex_empty_aad_dec with OD (Ok _) => true | _ => false end) = true.
+Proof. vm_compute. repeat split. Qed.
+
 Theorem c04_compact_segments_rt : forall hdr ek iv ct tag,
   bytes_ok hdr = true -> bytes_ok ek = true -> bytes_ok iv = true -> bytes_ok ct = true -> bytes_ok tag = true ->
   split_dot (join_dot [b64e hdr; b64e ek; b64e iv; b64e ct; b64e tag])
@@ -580,6 +613,8 @@ Print Assumptions c04_kw_rt.
 Print Assumptions headers_enc_eq_dec.
 Print Assumptions c04_headers_merge_order.
 Print Assumptions aad_enc_eq_dec.
+Print Assumptions c04_aad_empty_is_absent.
+Print Assumptions c04_represent_aad_member.
 Print Assumptions c04_compact_segments_rt.
 Print Assumptions c04_direct_single.
 Print Assumptions c04_direct_conflict_class.
